@@ -47,3 +47,19 @@
   #define SPEC_FABSF(x) (__CPROVER_fabsf(x))
 #endif
 #endif
+/* std::tuple<...> (nmtools_tuple) element k (literal 0,1,2,..): C model {e0,e1,..} */
+#ifndef TUP_GET
+#ifdef VERIF_NATIVE
+  #define TUP_GET(t, k) (std::get<k>(t))
+#else
+  #define TUP_GET(t, k) ((t).e##k)
+#endif
+#endif
+/* std::tuple model */
+#ifndef TUP_GET
+#ifdef VERIF_NATIVE
+  #define TUP_GET(t, i) (std::get<i>(t))
+#else
+  #define TUP_GET(t, i) ((t).e##i)
+#endif
+#endif
